@@ -116,6 +116,7 @@ func cmdCheck(args []string) int {
 		fmt.Fprintln(os.Stderr, "load:", err)
 		return 2
 	}
+	os.RemoveAll(filepath.Join(o.out, "replays", o.prop))
 	rep := runProperty(w, &o)
 	rep.WallS = time.Since(start).Seconds()
 	return rep.finish(&o)
@@ -218,6 +219,7 @@ func runProperty(w *World, o *checkOpts) *Report {
 	// replay: candidate inputs of failed obligations are run against the real code
 	replays := 0
 	seenInput := map[string]bool{}
+	searchDone := map[string]*ReplayResult{}
 	for _, j := range jobs {
 		ob := j.o
 		if ob.Cover || ob.Result.Status == "unsat" {
@@ -234,17 +236,31 @@ func runProperty(w *World, o *checkOpts) *Report {
 				ob.Result.Tried = append(ob.Result.Tried, "weakened-query:sat")
 			}
 		}
-		if ob.Result.Model == nil || replays >= 6 {
-			continue
+		rdir := filepath.Join(o.out, "replays", o.prop)
+		if ob.Result.Model != nil && replays < 6 {
+			in := decodeModel(ob)
+			key, _ := json.Marshal(in)
+			if !seenInput[j.v.fname+string(key)] {
+				seenInput[j.v.fname+string(key)] = true
+				replays++
+				ob.Replay = w.replay(j.v, ob, in, rdir, false)
+			}
 		}
-		in := decodeModel(ob)
-		key, _ := json.Marshal(in)
-		if seenInput[j.v.fname+string(key)] {
-			continue
+		if ob.Replay == nil || !ob.Replay.Confirmed {
+			// no confirmed input from the solver: bounded search for a concrete witness (once per function)
+			fk := j.v.fname + "#search"
+			if prev, ok := searchDone[fk]; ok {
+				if prev != nil && prev.Confirmed {
+					ob.Replay = prev
+				}
+			} else {
+				sr := w.replay(j.v, ob, nil, rdir, true)
+				searchDone[fk] = sr
+				if sr.Confirmed || ob.Replay == nil {
+					ob.Replay = sr
+				}
+			}
 		}
-		seenInput[j.v.fname+string(key)] = true
-		replays++
-		ob.Replay = w.replay(j.v, ob, in, filepath.Join(o.out, "replays", o.prop))
 	}
 	retReach := map[string]bool{}
 	byFunc := map[string]*FuncReport{}
@@ -380,7 +396,7 @@ func (rep *Report) finish(o *checkOpts) int {
 		if ob.Replay != nil {
 			switch {
 			case ob.Replay.Confirmed:
-				fmt.Printf("  replay on the real code CONFIRMS the violation: %s\n", ob.Replay.Cmd)
+				fmt.Printf("  replay on the real code CONFIRMS a violation (%s): %s\n    %s\n", ob.Replay.Mode, ob.Replay.Witness, ob.Replay.Cmd)
 			case ob.Replay.Skipped != "":
 				fmt.Printf("  replay skipped: %s\n", ob.Replay.Skipped)
 			default:
